@@ -35,12 +35,14 @@ def nthVia {S A : Type} (next : S → M (Option A × S)) : Nat → S → M (Opti
     | none => pure (none, s')
     | some _ => nthVia next d s'
 
-/-- one pattern character: `F` = next, `B` = next_back, `1`..`9` = nth(d), `a`..`i` = nth_back(d);
+/-- one pattern character: `F` = next, `B` = next_back, `1`..`9` = nth(d), `a`..`i` = nth_back(d), `H` / `h` = nth / nth_back of a count far beyond any extent;
 result: (from the back?, number of skipped items) -/
 def patStep (c : Char) : Bool × Nat :=
   if c = 'B' then (true, 0)
   else if '1' ≤ c ∧ c ≤ '9' then (false, c.toNat - 48)
   else if 'a' ≤ c ∧ c ≤ 'i' then (true, c.toNat - 96)
+  else if c = 'H' then (false, (2 ^ 64 - 1) / 3 + 1)
+  else if c = 'h' then (true, (2 ^ 64 - 1) / 5 + 1)
   else (false, 0)
 
 /-- `E` in an outer pattern = `for_each` over the rest (internal iteration: `fold`, which by its
